@@ -343,7 +343,8 @@ SaveState      == Step(SaveOp(s), Lbl("save_state", "", 0, 0, FALSE))
 LoadState      == s.disk.on /\ Step(LoadOp(s), Lbl("load_state", "", 0, 0, FALSE))
 
 \* the caller overwrites an array it holds (cp = the array was passed with copy=False)
-CallerScribble == \E c \in s.ext : s.arr[c] # SCR /\
+\* (an empty array - the stacked image of an empty history - has nothing to overwrite)
+CallerScribble == \E c \in s.ext : s.arr[c] # SCR /\ s.arr[c] # <<>> /\
                     Step([s EXCEPT !.arr[c] = SCR], LblAt("scribble", "", c \in s.optin, Where(s, c)))
 \* the caller empties a list object it holds
 CallerScribbleList == \E l \in s.lext : s.lst[l] # <<>> /\
